@@ -15,9 +15,8 @@ RULE = ("every 2-variable (and 1-variable) letter combination of the convex fami
         "of the same case; thorough adds 12 benchmark/non-convex objectives in boxes with "
         "face/vertex starts; oracle: no exception, every stencil point inside the box "
         "(exact; real part for cs), nfev == number of objective calls, "
-        "and for the step letters default and 1e-4: |f_FD - f_exact| <= max(1e-7, "
-        "10*(h*Lc)^2/mu)*(1+|f_exact|) (Lc = largest diagonal Hessian entry, mu = 1 the "
-        "smallest eigenvalue of the families); non-trivial = some variable on a bound at "
+        "and for the step letters default and 1e-4: |f_FD - f_exact| <= 1e-7*(1+|f_exact|) + "
+        "2n(h*Lc)^2/mu (Lc = largest diagonal Hessian entry, mu = smallest eigenvalue); non-trivial = some variable on a bound at "
         "the start or at the solution; distinct = distinct case")
 ASSUMPTIONS = [
     "the accuracy bound of a forward difference with step h is h*Lc on the gradient, hence "
@@ -37,6 +36,17 @@ def cases(tier, variants):
             for ji in range(4):
                 for si in range(3):
                     yield dict(c, part="cvx", jac=ji, step=si)
+    # stiff separable quadratic (curvatures 1e4..1e7) with absolute steps up to 1e-6: the
+    # product step x curvature reaches 10 (an option that leaks into a curvature threshold
+    # shows here and nowhere else)
+    for v in variants:
+        for boxes, start in ((["box", "lo", "box", "free"], ["in", "lb", "ub", "in"]),
+                             (["box", "box", "box", "box"], ["lb", "in", "in", "ub"])):
+            for ml in (["below", "inside", "above", "inside"], ["inside", "above", "below", "above"]):
+                for es in (1e-8, 1e-7, 1e-6):
+                    yield dict(kind="convex", fam="qp", hess="stiff", n=4, boxes=boxes,
+                               start=start, minloc=ml, var=v, maxcor=3, part="cvx", jac=0,
+                               step=0, abs_eps=es)
     # configuration letter: a gradient scaler together with finite differences
     for c in F.convex_cases(2, variants, (3,), fams=("qp",), hesses=("rot2",)):
         for ji in range(4):
@@ -69,6 +79,8 @@ def run(case):
     kw = dict(bounds=p.bounds, maxcor=case["maxcor"], maxiter=200, maxfun=20000, ftol=0.0,
               gtol=1e-6)
     fd = {}
+    if case.get("abs_eps"):
+        fd["eps"] = case["abs_eps"]
     if step != "default":
         if jac is None:
             fd["eps"] = step
@@ -116,9 +128,15 @@ def run(case):
         h = {None: 1e-8, "2-point": 1.5e-8, "3-point": 6.1e-6, "cs": 1.5e-8}[jac] \
             if step == "default" else step
         h = h * max(1.0, float(np.max(np.abs(x))))
+        if case.get("abs_eps"):
+            h = case["abs_eps"]
         Lc = float(np.max(np.diag(p.H))) + (3.0 * float(np.max((x - p.xs) ** 2))
                                             if case["fam"] == "quart" else 0.25)
-        thr = max(1e-7, 10.0 * (h * Lc) ** 2) * (1.0 + abs(fe))
+        mu = float(np.linalg.eigvalsh(p.H)[0])
+        # forward differences of a quadratic are off by h*H_ii/2 per component: the optimum
+        # moves by H^-1 of that and the value by at most n (h Lc)^2 / (8 mu); factor 16 of
+        # margin, plus a relative rounding floor
+        thr = 1e-7 * (1.0 + abs(fe)) + 2.0 * p.n * (h * Lc) ** 2 / mu
         if not abs(ff - fe) <= thr:
             viol.append(V("objective_value_differs_from_exact_gradient_solution", f_fd=ff,
                           f_exact=fe, threshold=thr, msg_fd=str(res.message),
